@@ -540,8 +540,7 @@ Fixpoint sv_value_ok (s : schema) (v : value) (t : ty) {struct v} : bool :=
       | Some (EInput _ _ _ fs _) =>                                                        (* 3.10 *)
           match v with
           | VObject fields =>
-              sv_nodup (map fst fields)                       (* 5.6.3 Input Object Field Uniqueness *)
-              && forallb (fun nx => match sv_find_arg (fst nx) (sv_vals fs) with
+              forallb (fun nx => match sv_find_arg (fst nx) (sv_vals fs) with
                                     | Some f => sv_value_ok s (snd nx) (iv_ty f)
                                     | None => false          (* 5.6.2 Input Object Field Names *)
                                     end) fields
@@ -551,6 +550,17 @@ Fixpoint sv_value_ok (s : schema) (v : value) (t : ty) {struct v} : bool :=
           end
       | Some _ => false                                       (* not an input type *)
       end
+  end.
+
+(* 5.6.3 Input Object Field Uniqueness: "For each input object value inputObject in the document ...
+   fields must be the set containing only inputField."  The rule is syntactic: it concerns every object
+   literal, whatever type is expected at its position (also inside a custom scalar's literal), as
+   graphql-js UniqueInputFieldNamesRule (one of its SDL rules) does. *)
+Fixpoint sv_value_fields_unique (v : value) : bool :=
+  match v with
+  | VList l => forallb sv_value_fields_unique l
+  | VObject fs => sv_nodup (map fst fs) && forallb (fun nx => sv_value_fields_unique (snd nx)) fs
+  | _ => true
   end.
 
 (* ---------------------------------------------------------------- directives applied in the schema (3.13, 5.7, 5.4) *)
@@ -635,6 +645,9 @@ Definition sv_rule_dir_required_args (s : schema) : bool :=
                       | Some VNull | None => false
                       | Some _ => true
                       end) (dd_args def)).
+(* 5.6.3 on the argument values of every applied directive *)
+Definition sv_rule_dir_arg_input_fields_unique (s : schema) : bool :=
+  sv_over_dirs s (fun _ d => forallb (fun a => sv_value_fields_unique (snd a)) (d_args d)).
 (* 5.6.1 Values of Correct Type (documented difference 3) *)
 Definition sv_rule_dir_arg_values (p : sv_params) (s : schema) : bool :=
   negb (svp_typecheck_schema_directive_arguments p) ||
@@ -646,7 +659,10 @@ Definition sv_rule_dir_arg_values (p : sv_params) (s : schema) : bool :=
 
 (* documented difference 1: default values are values of their type *)
 Definition sv_default_ok (s : schema) (a : inputvaldef) : bool :=
-  match iv_default a with Some v => sv_value_ok s v (iv_ty a) | None => true end.
+  match iv_default a with
+  | Some v => sv_value_fields_unique v && sv_value_ok s v (iv_ty a)
+  | None => true
+  end.
 Definition sv_rule_default_values (p : sv_params) (s : schema) : bool :=
   negb (svp_check_default_values p) ||
   (forallb (fun t => forallb (fun f => forallb (sv_default_ok s) (fd_args f)) (sv_fields_of t)
@@ -671,7 +687,8 @@ Definition sv_rules (p : sv_params) : list (schema -> bool) :=
     sv_rule_input_nonempty; sv_rule_input_field_types; sv_rule_input_no_nonnull_cycle;
     sv_rule_dirdef_arg_types; sv_rule_dirdef_no_self_ref; sv_rule_builtin_redefinition p;
     sv_rule_dir_defined; sv_rule_dir_location; sv_rule_dir_unique; sv_rule_dir_known_args;
-    sv_rule_dir_arg_unique; sv_rule_dir_required_args; sv_rule_dir_arg_values p;
+    sv_rule_dir_arg_unique; sv_rule_dir_required_args; sv_rule_dir_arg_input_fields_unique;
+    sv_rule_dir_arg_values p;
     sv_rule_default_values p ].
 
 Definition sv_rule_vector (p : sv_params) (s : schema) : list bool := map (fun r => r s) (sv_rules p).
